@@ -30,7 +30,7 @@ type C07Case struct {
 var c07MultiKinds = map[string]string{
 	"fits-long":  "package p\n\nfunc a() {\n\t_ = hole(aVeryLongArgumentName + anotherLongName)\n\tother()\n\tmore()\n}\n",
 	"fits-short": "package p\n\nvar v = hole(1)\n",
-	"misfit":     "package p\n\nfunc m(v T) {\n\tif hole(v) {\n\t}\n}\n",
+	"misfit":     "package p\n\nfunc m(v T) {\n\tif hole(v) {\n\t}\n\tother()\n}\n",
 	"nomatch":    "package p\n\nfunc n() {}\n",
 	"fits-big":   c07BigFile(),
 }
@@ -76,6 +76,9 @@ func c07RunMulti(env *core.Env, c *C07Case) core.Outcome {
 			return o
 		}
 		tree := map[string]string{"v.patch": c07MultiPatch}
+		if c.Patch != "" {
+			tree["v.patch"] = c.Patch
+		}
 		var names []string
 		for i, k := range c.Multi {
 			n := fmt.Sprintf("f%d.go", i)
@@ -216,6 +219,15 @@ func c07Gen(tier string, emit func(any)) {
 		}
 		for _, fl := range [][]string{{}, {"--skip-import-processing"}, {"--diff"}, {"--diff", "--skip-import-processing"}} {
 			emit(&C07Case{Family: "multi", Multi: sq, Flags: fl})
+		}
+	}
+	// the change whose result does not parse is followed / preceded by a change that matches and alters nothing
+	noop := "@@\n@@\n-other()\n+other()\n"
+	for _, p := range []string{c07MultiPatch + "\n" + noop, noop + "\n" + c07MultiPatch} {
+		for _, sq := range [][]string{{"misfit"}, {"fits-long", "misfit"}, {"misfit", "fits-long"}} {
+			for _, fl := range [][]string{{}, {"--skip-import-processing"}, {"--diff"}, {"--diff", "--skip-import-processing"}, {"--print-only", "--skip-import-processing"}} {
+				emit(&C07Case{Family: "multi", Multi: sq, Flags: fl, Patch: p})
+			}
 		}
 	}
 	// outputs longer than a buffer, with a failing file in the run, through the real binary (its exit path flushes)
